@@ -97,6 +97,15 @@ example : (selected
       [⟨none, .verbatim, .none, .none, some "`v`", some "v"⟩,
        ⟨some "Y", .endogenous, .int 0, .int 0, some "e", some "c"⟩]).map (·.type) = [.verbatim, .endogenous] := by rfl
 
+/-- "Carries an equation" means `is not None`, not truthiness: a symbol whose equation/code are EMPTY strings (an empty or
+    comment-only fenced block) is selected, the converter is called for it and its output is inserted. -/
+example : carriesCode ⟨none, .verbatim, .none, .none, some "", some ""⟩ = true ∧
+    renderBody (fun s => "# begin\n" ++ s.code.getD "" ++ "\n# end")
+      [⟨none, .verbatim, .none, .none, some "```\n\n```", some ""⟩,
+       ⟨some "Y", .endogenous, .int 0, .int 0, some "", some "self._Y[t] = 1"⟩]
+    = "        # begin\n\n        # end\n\n        # begin\n        self._Y[t] = 1\n        # end" := by
+  constructor <;> rfl
+
 /-- Symbols without an equation (or without code) contribute variables but no code. -/
 theorem no_equation_no_code (syms : List Symbol) (s : Symbol) (h : s.equation = none ∨ s.code = none) :
     s ∉ selected syms := by
@@ -342,5 +351,46 @@ example : solveT emptyInterp {} 4 2 ⟨(), List.replicate 4 .unsolved, List.repl
 
 example : solveT emptyInterp { minIter := 3, maxIter := 5 } 4 (-1) ⟨(), List.replicate 4 .unsolved, List.replicate 4 (-1)⟩
     = (⟨(), [.unsolved, .unsolved, .unsolved, .solved], [-1, -1, -1, 3]⟩, .ret true) := by decide
+
+/-! ## Non-vacuity (review): the hypotheses of the theorems above at concrete instances -/
+
+/-- `Y = X`, a verbatim block, `Z = Y[-1]`. -/
+def exScript : List Stmt :=
+  [.eqn [⟨"Y", .endogenous, .int 0⟩, ⟨"X", .exogenous, .int 0⟩] "Y[t] = X[t]" "c1",
+   .verb "`z`" "z",
+   .eqn [⟨"Z", .endogenous, .int 0⟩, ⟨"Y", .exogenous, .int (-1)⟩] "Z[t] = Y[t-1]" "c2"]
+def exSyms : List Symbol := (parseModel exScript).toOption.getD []
+theorem exSyms_eq : parseModel exScript = .ok exSyms := rfl
+theorem exScript_wi : WellIndexed exScript := by unfold WellIndexed; decide
+
+-- selected_keeps_relative_order: h1, h2 (a verbatim block before an equation)
+example : carriesCode ⟨none, .verbatim, .none, .none, some "`v`", some "v"⟩ = true ∧
+    carriesCode ⟨some "Y", .endogenous, .int 0, .int 0, some "e", some "c"⟩ = true := by decide
+-- no_equation_no_code: `h` for the exogenous symbol `X` of the parsed script, which IS in the symbol list
+example : (⟨some "X", .exogenous, .int 0, .int 0, none, none⟩ : Symbol) ∈ exSyms ∧
+    (⟨some "X", .exogenous, .int 0, .int 0, none, none⟩ : Symbol) ∉ selected exSyms :=
+  ⟨by decide, no_equation_no_code exSyms _ (Or.inl rfl)⟩
+-- no_equation_pass: `h` for a non-empty list
+example : selected [⟨some "X", .exogenous, .int 0, .int 0, none, none⟩] = [] := by decide
+-- statement_defines_one: w, h
+def exG : List Symbol :=
+  (stmtSymbols (.eqn [⟨"Y", .endogenous, .int 0⟩, ⟨"exp", .function, .none⟩, ⟨"X", .exogenous, .int (-1)⟩] "e" "c")).toOption.getD []
+example : exG.length = 3 ∧ (selected exG).length = 1 :=
+  ⟨by decide, (statement_defines_one (ts := [⟨"Y", .endogenous, .int 0⟩, ⟨"exp", .function, .none⟩, ⟨"X", .exogenous, .int (-1)⟩])
+    (e := "e") (c := "c") (G := exG) (by decide) rfl).2.1⟩
+-- every_statement_contributes / body_equation_count: h, w1 (three statements, four symbols, three code blocks)
+example : exSyms.length = 4 ∧ (selected exSyms).length = 2 + 1 :=
+  ⟨by decide, body_equation_count exSyms_eq exScript_wi⟩
+example : ∃ s ∈ selected exSyms, s.type = .endogenous ∧ s.equation = some "Z[t] = Y[t-1]" ∧ s.code = some "c2" :=
+  (every_statement_contributes exSyms_eq exScript_wi).1 [⟨"Z", .endogenous, .int 0⟩, ⟨"Y", .exogenous, .int (-1)⟩] _ _ (by simp [exScript])
+-- converter_verbatim: `h`
+example : ("\n\n".intercalate ((selected exSyms).map (fun s => indent8 (defaultConverter s)))).isEmpty = false := by
+  decide +kernel
+-- empty_model_solves: every hypothesis, at `emptyInterp`, period 2 of 4
+example : solveT emptyInterp {} 4 2 ⟨(), List.replicate 4 .unsolved, List.replicate 4 (-1)⟩ =
+    (⟨(), [.unsolved, .unsolved, .solved, .unsolved], [-1, -1, 1, -1]⟩, .ret true) := by
+  rw [empty_model_solves emptyInterp {} 4 2 _ (fun _ _ => rfl) (fun _ => rfl) (fun _ => rfl) (fun _ _ => rfl)
+    (fun _ _ => rfl) (by unfold Accepted Feasible; decide) (by decide)]
+  decide
 
 end Fsic.C15
